@@ -17,7 +17,8 @@ of h in {1,2,3} hops and applies one (quick) or up to two (thorough) manipulatio
 Oracle (white box, independent of the code under test; Rust primitives trusted):
 
 L1 hop-list   every hop appended to a circuit of the originator names the peer the originator put in the create
-              (destination address) / extend (node_public_key) that was outstanding, in order;
+              (destination address) / extend (node_public_key) that was outstanding, in order; a hop appended while
+              no create/extend for that position is outstanding is a violation;
 L2 holders    the session keys of every hop the originator accepted are held by no participant other than the
               selected peer and by none of the adversary's derivable keys (key-material comparison after every
               delivery, real encrypt/decrypt probe at the end of the execution);
@@ -25,8 +26,9 @@ L2h agreement if the accepted answer is the one the selected peer really produce
               exchange), that peer holds identical keys;
 L3 stability  established hops are the identical objects with identical peer and key material after every delivery;
 L4 honest     the unmanipulated run ends READY with the forced path and working data transfer in both directions;
-A  acceptance (mechanism level, see notes/C08.md) an answer is accepted only if an attempt is outstanding, its
-              identifier equals the identifier of that attempt and its HMAC verifies under DH(x, Y).
+A  acceptance (mechanism level, see notes/C08.md: the static DH term alone already keeps the keys secret, so the
+              two mechanisms the property anchors are not observable through L1-L4) an answer is accepted only if its
+              identifier equals the identifier of the outstanding attempt and its HMAC verifies under DH(x, Y).
 """
 from __future__ import annotations
 
@@ -262,7 +264,9 @@ class Monitor:
         where = f"{kind} for circuit #{self._cno(c)} accepted as hop {pre} at t={self.w.loop.time():.1f}"
         reasons = []
         if att is None or att["n_hops"] != pre:
-            reasons.append("no-outstanding-attempt")
+            # literal: a hop without a corresponding create/extend cannot "name the peer the originator selected"
+            self.flag("hop-list:no-outstanding-attempt", f"{where} although the originator had no create/extend "
+                      f"outstanding for hop {pre} (answer identifier {f['ident']})")
             att = None
         else:
             if att["ident"] != f["ident"]:
@@ -1127,7 +1131,7 @@ def run(ctx: core.Ctx) -> core.Report:
     for key, what, scn, plan in raw:
         if len(plan) == 2 and any(repr(_strip(m)) in single_hits.get(key, ()) for m in plan):
             continue        # already reported by the single manipulation it contains
-        cls = "+".join(sorted({op_class(m) for m in plan})) or "honest"
+        cls = "+".join(sorted({m["site"] for m in plan})) or "honest"      # coarse: one defect -> one key per site
         violations.append(core.Violation(f"{key}|{cls}", what, {"scenario": list(scn), "plan": [_strip(m) for m in plan],
                                                                  "seed": _SEED}))
     samples = [{"scenario": list(r[0]), "plan": [_strip(m) for m in r[1]]} for r in (res[0], res[len(res) // 3],
